@@ -119,6 +119,10 @@ def stepLine (env : Env) (line : String) : Env × Option String :=
       match parseStyle (String.ofList (b.map Char.ofNat)) with
       | none => (env, some "ERR")
       | some cs => (env, some (styleDebugName cs))
+  | ["refs", dv] =>
+    match deriveOfName dv with
+    | none => (env, some "bad-line")
+    | some dv => (env, some (String.intercalate "," ((allowedRefs dv).map Ref.show)))
   | ["snakify", id] =>
     match decodeStr id with
     | none => (env, some "bad-line")
